@@ -393,7 +393,16 @@ THREEPATS_MAX = 34      # n**3
 LONG_STEPS = (1, 2, 3, 7, 8, 9, 31, 32, 33, 255, 256, 257, 258)
 
 
+VALUE_METHODS = ("order", "cycle_decomp", "count_cycles", "num_cycles", "is_involution",
+                 "fixed_points", "count_fixed_points", "depth")
+VALUE_TABLE = ("Order", "Number of cycles", "Number of fixed points", "Depth")
+# 'value' family (ref_c11.value_family): the VALUE of the statistic crosses 2**53 and 2**64.  Only
+# the order can (everything else is below n**4); the cycle-related methods ride along.
+
+
 def scale_names(n, kind):
+    if kind == "value":
+        return list(VALUE_METHODS), {nm for nm in D.NAMES if nm not in VALUE_TABLE}
     names = list(SEARCH) if kind == "slice" else sorted(METHODS)
     drop = set()
     if n > HOLEY_MAX:
@@ -417,6 +426,8 @@ def scale_perms(kind, n, lo, hi):
         rest = [v for v in range(n) if v != first]
         return [("first entry %d" % first, (first,) + q)
                 for q in itertools.islice(itertools.permutations(rest), lo, hi)]
+    if kind == "value":
+        return D.value_family()[lo:hi]
     fam = D.holey_extremal(n) if kind == "extremal" else D.scale_shapes(n)
     return fam[lo:hi]
 
@@ -444,9 +455,35 @@ def shard_scale(shard):
     if perms and lo == 0:
         label, p = perms[len(perms) // 2]
         part.sample({"scale": kind, "n": n, "label": label,
-                     "perm": p if n <= 16 else list(p[:8]) + ["..."],
-                     "inversions": len(D.inversions(p)),
-                     "holeyness": D.holeyness(p) if n <= HOLEY_MAX else None}, cap=1)
+                     "perm": p if len(p) <= 16 else list(p[:8]) + ["..."],
+                     "order": D.order(p),
+                     "holeyness": D.holeyness(p) if len(p) <= HOLEY_MAX else None}, cap=1)
+    return part
+
+
+def shard_value_tools(shard):
+    """preserved_in of the VALUE_TABLE statistics on p -> sym(p) over the whole value family (orders
+    far above 2**53 that are equal as integers on both sides for the inverse and the identity map)."""
+    symname, = shard
+    Perm, PS = _lib()
+    part = Partial()
+    fam = D.value_family()
+    pairs = [(p, R.apply_sym(symname, p)) for _, p in fam]
+    bij = {Perm(k): Perm(v) for k, v in pairs}
+    ents = [e for e in table_entries(PS) if e[1] in VALUE_TABLE]
+    case = {"tool": "preserved_in", "value_family": True, "sym": symname,
+            "label": "sym:%s on value_family" % symname}
+    got, exp = set(), set()
+    for i, name, _f in ents:
+        try:
+            if PS.get_by_index(i).preserved_in(bij):
+                got.add(name)
+        except Exception as exc:  # noqa
+            part.violation("scale", dict(case, stat=name), {"exception": repr(exc)})
+        if all(D.FUNC[name](k) == D.FUNC[name](v) for k, v in pairs):
+            exp.add(name)
+    attribute(part, "scale", case, got, exp, exp, lambda e: (e,))
+    part.add(len(ents), 1 if 0 < len(exp) < len(ents) else 0)
     return part
 
 
@@ -1716,7 +1753,11 @@ def run(ctx, only=None):
             per = 32 if n <= 12 else (16 if n <= 34 else 4)
             for lo in range(0, m, per):
                 shards.append(("shapes", n, lo, min(m, lo + per), True))
+        nv = len(D.value_family())
+        for lo in range(0, nv, 16):
+            shards.append(("value", 999, lo, min(nv, lo + 16), True))
         ctx.pmap(shard_scale, shards)
+        ctx.pmap(shard_value_tools, [(sym,) for sym in ("inverse", "reverse", "complement", "id")])
         tool_sizes = (33, 257) if quick else (9, 33, 257, 300)
         ctx.pmap(shard_scale_tools, [(n, sym) for n in tool_sizes
                                      for sym in ("reverse", "complement", "inverse", "rot90")])
@@ -1730,6 +1771,16 @@ def run(ctx, only=None):
                       "None, %s, n-1, n beyond length 12"
                       % (list(sizes), sum(len(D.scale_shapes(n)) for n in sizes), HOLEY_MAX,
                          FOURPATS_MAX, THREEPATS_MAX, list(LONG_STEPS)),
+            "value": "ref_c11.value_family(): %d permutations (length <= %d) - direct sums of cycles whose "
+                     "lengths are the first r primes, r=1..18, the same with one of %s inserted, and the "
+                     "reverse / complement / inverse of each; orders up to %d bits (%d above 2**53); methods %s, "
+                     "table entries %s, preserved_in of those entries on p -> inverse / reverse / complement "
+                     "/ p over the family; reference order = integer lcm of the orbit sizes, verified by "
+                     "p**k == id (repeated squaring) and minimality for lengths <= 130"
+                     % (nv, max(len(p) for _, p in D.value_family()), list(D.PRIME_POWERS),
+                        max(D.order(p).bit_length() for _, p in D.value_family()),
+                        sum(1 for _, p in D.value_family() if D.order(p) > 2 ** 53),
+                        list(VALUE_METHODS), list(VALUE_TABLE)),
             "tools": "preserved_in of every polynomial table statistic on p -> reverse / complement / "
                      "inverse / rot90 of p over scale_shapes(n), n in %s" % (list(tool_sizes),)}
         ctx.section("scale", evaluations=ctx.evals - e0)
@@ -2063,7 +2114,8 @@ def replay(ctx, rec):
             ctx.violation("abort", case, hit[0]["detail"], sig=hit[0]["sig"])
     elif sub == "scale":
         for _ in range(T):
-            part = shard_scale_tools((case["scale_n"], case["sym"]))
+            part = shard_value_tools((case["sym"],)) if case.get("value_family") else \
+                shard_scale_tools((case["scale_n"], case["sym"]))
             if _first(ctx, part, case, rec.get("signature")):
                 break
     elif sub == "custom":
